@@ -11,7 +11,7 @@
 //!   item <name> <value|map> <persistent> <default> ;; ok        the items of the agent (as configured)
 //!   script <step…> / end <mode> [n]               ;; ok        the complete plan (what `replay` re-executes)
 //!   do <step…>                                    ;; ok        a step of the script was executed
-//!   idfor <name>                                  ;; <id>      NodePersistence::id_for
+//!   idfor <name>                                  ;; id=<id>   NodePersistence::id_for
 //!   store get <id> | store readmap <id>           ;; <state>   reads (initialisation)
 //!   store put <id> <hex> | upd <id> <k> <v> | rem <id> <k> | clr <id>   ;; ok     writes
 //!   storefail                                     ;; ok        the injected store error was returned
@@ -19,8 +19,11 @@
 //!   crash                                         ;; ok        the cut: everything is dropped here
 //!   ended <how>                                   ;; ok        the agent task finished (ok / error kind / running)
 //!   restart                                       ;; ok        a fresh agent is started against the same store
-//!   start                                         ;; <states>  what `on_start` saw in every item
-//!   restored <item>                               ;; <state>   what a sync (or the probe) saw after restart
+//!   live                                          ;; ok        restore checked; `script2` (if any) runs now, then a
+//!                                                              clean stop and one more restart
+//!   start                                         ;; at-start <name>=<state>…  what `on_start` saw in every item
+//!   restored <item>                               ;; val=<hex> | map=<entries> | none   what a sync (or the probe) saw
+//! (states: `val=<hex>` / `val=none`, `map=<khex>:<vhex>,…` sorted by key bytes, `map=-` when empty)
 use std::cell::RefCell;
 use std::collections::{BTreeMap, HashMap};
 use std::future::Future;
@@ -118,7 +121,7 @@ impl PLife {
                             context.get_value(PAgent::TS).and_then(move |ts: i32| {
                                 context.effect(move || {
                                     let line = format!(
-                                        "v={} m={} t={} vs={} ms={} ts={}",
+                                        "at-start v={} m={} t={} vs={} ms={} ts={}",
                                         hx(v),
                                         fmt_map(&m),
                                         hx(t),
@@ -289,7 +292,7 @@ impl NodePersistence for RecStore {
                 inner.ids.len() - 1
             }
         } as u64;
-        self.log.lock().push(format!("idfor {}", name), id.to_string());
+        self.log.lock().push(format!("idfor {}", name), format!("id={}", id));
         Ok(id)
     }
 
@@ -298,7 +301,7 @@ impl NodePersistence for RecStore {
         let r = inner.values.get(&id);
         self.log.lock().push(
             format!("store get {}", id),
-            r.map(|v| hex(v)).unwrap_or_else(|| "none".into()),
+            format!("val={}", r.map(|v| hex(v)).unwrap_or_else(|| "none".into())),
         );
         Ok(r.map(|v| {
             buffer.extend_from_slice(v);
@@ -350,7 +353,7 @@ impl NodePersistence for RecStore {
             .unwrap_or_default();
         self.log
             .lock()
-            .push(format!("store readmap {}", id), render_entries(&entries));
+            .push(format!("store readmap {}", id), format!("map={}", render_entries(&entries)));
         Ok(MapSnap { entries, pos: 0 })
     }
 }
@@ -674,6 +677,8 @@ struct Plan {
     rbuf: usize,
     script: Vec<String>,
     end: String, // stop | idle | crashS n | crashF n | fail n
+    /// commands issued (through remote 9) after the restart, followed by a second restart
+    script2: Vec<String>,
 }
 
 const ITEMS: &[(&str, &str, bool, bool)] = &[
@@ -699,62 +704,9 @@ fn in_rt<T>(f: impl FnOnce(&tokio::runtime::Runtime, &LocalSet) -> T) -> T {
     r
 }
 
-/// Executes one plan; returns the log lines and the number of (store ops, frames) of the first phase.
-fn run_plan(plan: &Plan) -> (Vec<(String, String)>, usize, usize) {
-    let log = Arc::new(Mutex::new(Log::new()));
-    let store = RecStore { inner: Arc::new(Mutex::new(StoreInner::default())), log: log.clone() };
-    {
-        let mut l = log.lock();
-        l.push(format!("cfg transient={} rbuf={}", plan.transient as u8, plan.rbuf), "ok".into());
-        for (name, kind, lane, flagged) in ITEMS {
-            let persistent = !*flagged && !(*lane && plan.transient);
-            let def = if *kind == "value" { hx(0) } else { "-".to_string() };
-            l.push(format!("item {} {} {} {}", name, kind, persistent as u8, def), "ok".into());
-        }
-        for s in &plan.script {
-            l.push(format!("script {}", s), "ok".into());
-        }
-        l.push(format!("end {}", plan.end), "ok".into());
-        let e: Vec<&str> = plan.end.split_whitespace().collect();
-        l.cut = match e.as_slice() {
-            ["crashS", n] => Cut::AfterStore(n.parse().unwrap_or(0)),
-            ["crashF", n] => Cut::AfterFrame(n.parse().unwrap_or(0)),
-            ["fail", n] => Cut::FailStore(n.parse().unwrap_or(0)),
-            _ => Cut::None,
-        };
-    }
-    // ---- phase 1
-    in_rt(|rt, local| {
-        local.block_on(rt, async {
-            let mut run = Run::start(log.clone(), store.clone(), plan.transient, plan.rbuf);
-            let mut alive = true;
-            for s in &plan.script {
-                log.lock().push(format!("do {}", s), "ok".into());
-                if run.step(s).await.is_none() {
-                    alive = false;
-                    break;
-                }
-            }
-            if alive {
-                let end = plan.end.split_whitespace().next().unwrap_or("stop").to_string();
-                match end.as_str() {
-                    "idle" => {
-                        // nothing happens for much longer than the inactivity time-out
-                        let _ = run.with(tokio::time::sleep(INACTIVE * 4)).await;
-                    }
-                    _ => {
-                        let _ = run.stop().await;
-                    }
-                }
-            }
-            run.finish().await;
-        })
-    });
-    let (ns, nf) = {
-        let l = log.lock();
-        (l.nstore, l.nframe)
-    };
-    // ---- phase 2: restart against the same store, sync everything
+/// Restart a fresh agent against the same store, let `on_start` report, probe the stores and sync every lane
+/// (`restored` lines); then run `tail` (more commands through remote 9) and stop cleanly.
+fn restart_phase(log: &Arc<Mutex<Log>>, store: &RecStore, transient: bool, tail: &[String]) {
     {
         let mut l = log.lock();
         l.dead = false;
@@ -765,7 +717,7 @@ fn run_plan(plan: &Plan) -> (Vec<(String, String)>, usize, usize) {
     }
     in_rt(|rt, local| {
         local.block_on(rt, async {
-            let mut run = Run::start(log.clone(), store.clone(), plan.transient, 4096);
+            let mut run = Run::start(log.clone(), store.clone(), transient, 4096);
             let probe = hex(b"\"probe\"");
             let steps = vec![
                 "attach 9".to_string(),
@@ -811,12 +763,12 @@ fn run_plan(plan: &Plan) -> (Vec<(String, String)>, usize, usize) {
                     "none".to_string()
                 } else if lane == "m" {
                     if map.is_empty() {
-                        "-".into()
+                        "map=-".into()
                     } else {
-                        map.iter().map(|(k, v)| format!("{}:{}", k, v)).collect::<Vec<_>>().join(",")
+                        format!("map={}", map.iter().map(|(k, v)| format!("{}:{}", k, v)).collect::<Vec<_>>().join(","))
                     }
                 } else {
-                    val.unwrap_or_else(|| "none".into())
+                    val.map(|v| format!("val={}", v)).unwrap_or_else(|| "none".into())
                 };
                 log.lock().push(format!("restored {}", lane), state);
             }
@@ -843,13 +795,90 @@ fn run_plan(plan: &Plan) -> (Vec<(String, String)>, usize, usize) {
                 })
                 .unwrap_or_default();
             for st in ["vs", "ms", "ts"] {
-                let state = fields.get(st).cloned().unwrap_or_else(|| "none".into());
+                let state = fields
+                    .get(st)
+                    .map(|x| format!("{}={}", if st == "ms" { "map" } else { "val" }, x))
+                    .unwrap_or_else(|| "none".into());
                 log.lock().push(format!("restored {}", st), state);
+            }
+            // the restarted agent is live again: it keeps working (and persisting) after the restore
+            log.lock().push("live".into(), "ok".into());
+            for s in tail {
+                log.lock().push(format!("do {}", s), "ok".into());
+                if run.step(s).await.is_none() {
+                    break;
+                }
             }
             let _ = run.stop().await;
             run.finish().await;
         })
     });
+}
+
+/// Executes one plan; returns the log lines and the number of (store ops, frames) of the first phase.
+fn run_plan(plan: &Plan) -> (Vec<(String, String)>, usize, usize) {
+    let log = Arc::new(Mutex::new(Log::new()));
+    let store = RecStore { inner: Arc::new(Mutex::new(StoreInner::default())), log: log.clone() };
+    {
+        let mut l = log.lock();
+        l.push(format!("cfg transient={} rbuf={}", plan.transient as u8, plan.rbuf), "ok".into());
+        for (name, kind, lane, flagged) in ITEMS {
+            let persistent = !*flagged && !(*lane && plan.transient);
+            let def = if *kind == "value" { hx(0) } else { "-".to_string() };
+            l.push(format!("item {} {} {} {}", name, kind, persistent as u8, def), "ok".into());
+        }
+        for s in &plan.script {
+            l.push(format!("script {}", s), "ok".into());
+        }
+        for s in &plan.script2 {
+            l.push(format!("script2 {}", s), "ok".into());
+        }
+        l.push(format!("end {}", plan.end), "ok".into());
+        let e: Vec<&str> = plan.end.split_whitespace().collect();
+        l.cut = match e.as_slice() {
+            ["crashS", n] => Cut::AfterStore(n.parse().unwrap_or(0)),
+            ["crashF", n] => Cut::AfterFrame(n.parse().unwrap_or(0)),
+            ["fail", n] => Cut::FailStore(n.parse().unwrap_or(0)),
+            _ => Cut::None,
+        };
+    }
+    // ---- phase 1
+    in_rt(|rt, local| {
+        local.block_on(rt, async {
+            let mut run = Run::start(log.clone(), store.clone(), plan.transient, plan.rbuf);
+            let mut alive = true;
+            for s in &plan.script {
+                log.lock().push(format!("do {}", s), "ok".into());
+                if run.step(s).await.is_none() {
+                    alive = false;
+                    break;
+                }
+            }
+            if alive {
+                let end = plan.end.split_whitespace().next().unwrap_or("stop").to_string();
+                match end.as_str() {
+                    "idle" => {
+                        // nothing happens for much longer than the inactivity time-out
+                        let _ = run.with(tokio::time::sleep(INACTIVE * 4)).await;
+                    }
+                    _ => {
+                        let _ = run.stop().await;
+                    }
+                }
+            }
+            run.finish().await;
+        })
+    });
+    let (ns, nf) = {
+        let l = log.lock();
+        (l.nstore, l.nframe)
+    };
+    // ---- phase 2: restart against the same store, sync everything, then go on working
+    restart_phase(&log, &store, plan.transient, &plan.script2);
+    if !plan.script2.is_empty() {
+        // ---- phase 3: the work done after the restore must itself survive a restart
+        restart_phase(&log, &store, plan.transient, &[]);
+    }
     let lines = std::mem::take(&mut log.lock().lines);
     (lines, ns, nf)
 }
@@ -865,6 +894,51 @@ fn emit(t: &mut Trace, id: String, lines: &[(String, String)]) {
 
 fn recon_str(s: &str) -> String {
     hex(format!("\"{}\"", s).as_bytes())
+}
+
+/// One command: to the value lane, the map lane, the transient lane, or (through `ctl`) to a store.
+fn gen_cmd(rng: &mut Rng, present: &mut Vec<i64>, ms_present: &mut Vec<i64>) -> (&'static str, String) {
+    let val = if rng.chance(1, 10) { rng.below(100000) as i64 - 50000 } else { rng.below(40) as i64 - 5 };
+    let key = rng.range(1, 3) as i64;
+    let y = rng.below(100);
+    if y < 22 {
+        ("v", hex(val.to_string().as_bytes()))
+    } else if y < 42 {
+        present.retain(|k| *k != key);
+        present.push(key);
+        ("m", hex(format!("@update(key:{}) {}", key, val).as_bytes()))
+    } else if y < 50 && present.is_empty() && rng.chance(11, 12) {
+        // (removing an absent key silences the lane for good — F18 — so it is kept rare)
+        present.push(key);
+        ("m", hex(format!("@update(key:{}) {}", key, val).as_bytes()))
+    } else if y < 50 {
+        let k = if !present.is_empty() && rng.chance(11, 12) { *rng.pick(&present) } else { key };
+        present.retain(|q| *q != k);
+        ("m", hex(format!("@remove(key:{})", k).as_bytes()))
+    } else if y < 54 {
+        present.clear();
+        ("m", hex(b"@clear"))
+    } else if y < 62 {
+        ("t", hex(val.to_string().as_bytes()))
+    } else if y < 74 {
+        ("ctl", recon_str(&format!("vs {}", val)))
+    } else if y < 88 {
+        ms_present.retain(|k| *k != key);
+        ms_present.push(key);
+        ("ctl", recon_str(&format!("ms u {} {}", key, val)))
+    } else if y < 93 && ms_present.is_empty() && rng.chance(11, 12) {
+        ms_present.push(key);
+        ("ctl", recon_str(&format!("ms u {} {}", key, val)))
+    } else if y < 93 {
+        let k = if !ms_present.is_empty() && rng.chance(11, 12) { *rng.pick(&ms_present) } else { key };
+        ms_present.retain(|q| *q != k);
+        ("ctl", recon_str(&format!("ms r {}", k)))
+    } else if y < 96 {
+        ms_present.clear();
+        ("ctl", recon_str("ms c"))
+    } else {
+        ("ctl", recon_str(&format!("ts {}", val)))
+    }
 }
 
 fn gen_plan(rng: &mut Rng) -> Plan {
@@ -894,47 +968,7 @@ fn gen_plan(rng: &mut Rng) -> Plan {
         let r = *rng.pick(&remotes);
         let x = rng.below(100);
         if x < 62 {
-            let val = if rng.chance(1, 10) { rng.below(100000) as i64 - 50000 } else { rng.below(40) as i64 - 5 };
-            let key = rng.range(1, 3) as i64;
-            let y = rng.below(100);
-            let (lane, body) = if y < 22 {
-                ("v", hex(val.to_string().as_bytes()))
-            } else if y < 42 {
-                present.retain(|k| *k != key);
-                present.push(key);
-                ("m", hex(format!("@update(key:{}) {}", key, val).as_bytes()))
-            } else if y < 50 && present.is_empty() && rng.chance(11, 12) {
-                // (removing an absent key silences the lane for good — F18 — so it is kept rare)
-                present.push(key);
-                ("m", hex(format!("@update(key:{}) {}", key, val).as_bytes()))
-            } else if y < 50 {
-                let k = if !present.is_empty() && rng.chance(11, 12) { *rng.pick(&present) } else { key };
-                present.retain(|q| *q != k);
-                ("m", hex(format!("@remove(key:{})", k).as_bytes()))
-            } else if y < 54 {
-                present.clear();
-                ("m", hex(b"@clear"))
-            } else if y < 62 {
-                ("t", hex(val.to_string().as_bytes()))
-            } else if y < 74 {
-                ("ctl", recon_str(&format!("vs {}", val)))
-            } else if y < 88 {
-                ms_present.retain(|k| *k != key);
-                ms_present.push(key);
-                ("ctl", recon_str(&format!("ms u {} {}", key, val)))
-            } else if y < 93 && ms_present.is_empty() && rng.chance(11, 12) {
-                ms_present.push(key);
-                ("ctl", recon_str(&format!("ms u {} {}", key, val)))
-            } else if y < 93 {
-                let k = if !ms_present.is_empty() && rng.chance(11, 12) { *rng.pick(&ms_present) } else { key };
-                ms_present.retain(|q| *q != k);
-                ("ctl", recon_str(&format!("ms r {}", k)))
-            } else if y < 96 {
-                ms_present.clear();
-                ("ctl", recon_str("ms c"))
-            } else {
-                ("ctl", recon_str(&format!("ts {}", val)))
-            };
+            let (lane, body) = gen_cmd(rng, &mut present, &mut ms_present);
             script.push(format!("cmd {} {} {}", r, lane, body));
         } else if x < 82 {
             script.push("wait".into());
@@ -951,7 +985,19 @@ fn gen_plan(rng: &mut Rng) -> Plan {
     if rng.chance(4, 5) {
         script.push("wait".into());
     }
-    Plan { transient, rbuf, script, end: "stop".into() }
+    // after the restart: a few more commands (the known map contents are carried over only approximately)
+    let mut script2: Vec<String> = vec![];
+    if rng.chance(3, 4) {
+        for _ in 0..rng.range(1, 5) {
+            let (lane, body) = gen_cmd(rng, &mut present, &mut ms_present);
+            script2.push(format!("cmd 9 {} {}", lane, body));
+            if rng.chance(1, 4) {
+                script2.push("wait".into());
+            }
+        }
+        script2.push("wait".into());
+    }
+    Plan { transient, rbuf, script, end: "stop".into(), script2 }
 }
 
 /// A history and all its cuts.
@@ -985,7 +1031,7 @@ fn run_family(t: &mut Trace, base: &Plan, tag: &str, max_cuts: usize, rng: &mut 
 }
 
 fn plan_of_ops(ops: &[String]) -> Plan {
-    let mut p = Plan { transient: false, rbuf: 4096, script: vec![], end: "stop".into() };
+    let mut p = Plan { transient: false, rbuf: 4096, script: vec![], end: "stop".into(), script2: vec![] };
     for op in ops {
         let w: Vec<&str> = op.split_whitespace().collect();
         match w.as_slice() {
@@ -994,6 +1040,7 @@ fn plan_of_ops(ops: &[String]) -> Plan {
                 p.rbuf = b.split('=').nth(1).and_then(|s| s.parse().ok()).unwrap_or(4096);
             }
             ["script", rest @ ..] => p.script.push(rest.join(" ")),
+            ["script2", rest @ ..] => p.script2.push(rest.join(" ")),
             ["end", rest @ ..] => p.end = rest.join(" "),
             _ => {}
         }
